@@ -36,7 +36,7 @@ Definition mismatches_with (univ : list (bytes * bytes)) (cs : list case) := mis
    there: 1 = the whole text twin differs from the narrowed run, 2 = the narrowed run differs from
    the implementation's own full-scan run).  The case files define their list with the type
    [xcase]; the tree-level cases above are embedded under their old name. *)
-From KV Require Corr.C03Text Corr.C02Text.
+From KV Require Corr.C03Text Corr.C02Text Corr.C02TextD.
 
 Inductive xcase :=
   | XBase (c : case)
@@ -48,7 +48,7 @@ Definition xcheck_case (univ : list (bytes * bytes)) (c : xcase) : nat :=
   match c with
   | XBase b => check_case univ b
   | CaseNT t => C02Text.check_nt t
-  | CaseND t => C02Text.check_nd t
+  | CaseND t => C02TextD.check_nd2 t
   end.
 
 Fixpoint xmism_from (univ : list (bytes * bytes)) (i : nat) (cs : list xcase) : list (nat * nat) :=
